@@ -111,7 +111,7 @@ func main() {
 		"BIP-32 'IL >= n / child key = 0' cases (probability 2^-127) are not reachable by enumeration and are not covered",
 		"crypto/rand.Reader is replaced by a deterministic stream so that salts/nonces are owned by the harness",
 		"quick: raw-ciphertext mutations are one bit per byte (bit = index mod 8) for one key; thorough: every bit, both key types",
-		"near-miss passphrases: quick = full quick family (no VT/FF/LS/ZWJ pads, one case flip per end) for bases empty, unicode, long-1, padded on ed25519, keybase Sign for the family of long-1 and Export/Rotate/Delete for 3 variants; thorough = every menu passphrase + padded + combining bases, both key types, every cased letter flipped, all four keybase calls for every variant. Variants with the same 72 bytes of cyclic bcrypt key material as the base are the known bcrypt aliasing finding: counted, not tried",
+		"near-miss passphrases: quick = full quick family (no VT/FF/LS/ZWJ pads, one case flip per end) for bases empty, unicode, long-1, padded on ed25519, keybase (base long-1) Sign for the first variant of every group + the common paddings (11 variants) and Export/Rotate/Delete for 3 variants; thorough = every menu passphrase + padded + combining bases, both key types, every cased letter flipped, all four keybase calls for every variant. Variants with the same 72 bytes of cyclic bcrypt key material as the base are the known bcrypt aliasing finding: counted, not tried",
 		"whitespace variants of mnemonics and panics on malformed HD paths are recorded as outcomes only (outside the letter of the property)",
 	}
 	r.Finish("bip39: entropy menu + all single-bit entropies x round trip, every single-word substitution (pos x 2047 words) vs independent checksum; hd: every path of depth<=5 over 6 index tokens x 3 seeds vs independent BIP-32; armor/keybase: keys x passphrase pairs, base passphrase x near-miss family (padding, case, normalisation, length) via armor and keybase Sign/Export/Rotate/Delete, ciphertext bit flips, armored-text substitutions. distinct = distinct (mnemonic|path+seed|armor mutation) cases",
